@@ -566,7 +566,17 @@ func GenDirective(t *rapid.T, p *Profile, pools *Pools, year *int, o JournalOpts
 				paths = append(paths, "😀/a.journal")
 			}
 		}
-		return &m.Directive{Kind: "include", Path: rapid.SampledFrom(paths).Draw(t, "ipath")}
+		// a word of the path may open a bracket or a quote that nothing closes
+		paths = append(paths, "2023 (old.journal", "(archive/x.journal", "old \"2023.journal")
+		d := &m.Directive{Kind: "include", Path: rapid.SampledFrom(paths).Draw(t, "ipath")}
+		switch rapid.IntRange(0, 5).Draw(t, "itrail") {
+		case 0:
+			d.CSep = rapid.SampledFrom([]string{"  ", " ", "\t"}).Draw(t, "itrailblanks")
+		case 1:
+			d.CSep = rapid.SampledFrom([]string{"  ", "   "}).Draw(t, "icsep")
+			d.Comment = &m.Comment{Lead: " ", Items: []m.CItem{{Text: "the books of that year"}}}
+		}
+		return d
 	case "P":
 		syms := pools.Syms
 		s1 := rapid.SampledFrom(syms).Draw(t, "psym")
